@@ -559,7 +559,11 @@ func genHopeless(r *rng, c genCfg) *scenario {
 		f := c.newConv(r, sc, []lab{dead}, []lab{{Ty: 8}})
 		g := c.newConv(r, sc, []lab{{Ty: 8}}, []lab{{Ty: 9}})
 		f.Script, g.Script = "ok", "ok"
-		sc.Opts = append(sc.Opts, optSpecC{Kind: "convfunc", Fids: []int{f.ID}}, optSpecC{Kind: "conv", Fids: []int{g.ID}})
+		gk := "conv" // as a raw function, unless that would drop its run-once option
+		if g.Once || g.Form == "built" {
+			gk = "convfunc"
+		}
+		sc.Opts = append(sc.Opts, optSpecC{Kind: "convfunc", Fids: []int{f.ID}}, optSpecC{Kind: gk, Fids: []int{g.ID}})
 	}
 	// a second converter with the very Go signature of an existing one (both must be reported), supplied
 	// as a built function so that its identity is observable
